@@ -1,1 +1,5 @@
 From TT Require Import Lib.Base Model.Tfr Model.Concur Spec.C12 Spec.C13 Corr.C13 Proof.C13.
+
+Theorem C13_stream_holds : forall i, spec_okb (IStream i) (model (IStream i)) = true.
+Proof. exact stream_meets_spec. Qed.
+Print Assumptions C13_stream_holds.
